@@ -148,6 +148,10 @@ func runConc(phase string, i int, rng *rand.Rand) (res worker.Result) {
 			return
 		}
 	}
+	if !d.AbsentDir && rng.IntN(3) == 0 {
+		d.setLink(linkKinds[rng.IntN(len(linkKinds))])
+		res.Count("conc_cases_with_symlinked_config_path", 1)
+	}
 	dir, err := os.MkdirTemp("", "verif-c18-")
 	if err != nil {
 		res.Violate("harness:mkdtemp", err.Error(), nil)
@@ -299,7 +303,7 @@ func runConc(phase string, i int, rng *rand.Rand) (res worker.Result) {
 	}
 	sort.Slice(hist, func(a, b int) bool { return hist[a].Call < hist[b].Call })
 	wit := func() map[string]any {
-		return map[string]any{"store": kind, "document": string(clip(d.Text, 4000)), "doc_state": d.Shape, "pool": pool, "fallback": fallback, "goroutines": G, "history": hist}
+		return map[string]any{"store": kind, "document": string(clip(d.Text, 4000)), "doc_state": d.Shape, "config_path_is_symlink": d.Link, "pool": pool, "fallback": fallback, "goroutines": G, "history": hist}
 	}
 	for _, e := range errs {
 		if e != "" {
